@@ -151,6 +151,10 @@ func checkC13(c *Ctx) {
 			if cc := call.Common(); cc.IsInvoke() && cc.Method != nil && cc.Method.Pkg() != nil && cc.Method.Pkg().Path() == ir.RootPath && !cc.Method.Exported() {
 				interesting = true
 			}
+			if c.isDispatchCall(call) {
+				interesting = true // however the dispatcher is reached (interface or concrete type)
+				n = "the request dispatcher"
+			}
 			if !interesting {
 				return
 			}
@@ -458,4 +462,32 @@ func c13Inject(c *Ctx, reach map[*ssa.Function]bool) {
 		})
 	}
 	c.R.Min("R-inject", 4)
+}
+
+// dispatchOwnContext: wherever a transport hands a decoded request to the dispatcher, the context it passes derives
+// from the context of that very request (its own parameter / r.Context()), not from a context kept in a session or
+// connection object.
+func dispatchOwnContext(c *Ctx, rule string) {
+	n := 0
+	for _, fn := range c.P.LibFns {
+		if clientSide(c, fn) {
+			continue
+		}
+		ir.EachInstr(fn, func(_ *ssa.BasicBlock, _ int, in ssa.Instruction) {
+			call, ok := in.(*ssa.Call)
+			if !ok || !c.isDispatchCall(call) {
+				return
+			}
+			for _, a := range call.Call.Args {
+				if ir.TypeStr(a.Type()) != "context.Context" {
+					continue
+				}
+				n++
+				root := ctxRoot2(a, 0)
+				c.R.Check(root == "param" || root == "request", rule, sprintf("context of the dispatch in %s #%d", fname(fn), n), c.Pos(call.Pos()), "derives from the request's own context ("+root+")",
+					sprintf("%s dispatches the request with a context of provenance %q instead of one derived from the request's own context: the middlewares and the handler see another request's (or the connection's) values and cancellation", fname(fn), root))
+			}
+		})
+	}
+	c.R.Min(rule, 3)
 }
